@@ -106,6 +106,31 @@ def run(tier, seed, only=None):
                 b.fail("C16.layers.conv_nd.value", desc, "differs from naive formula")
         b.case(desc)
 
+    def check_conv_dtypes():
+        """operands of different precisions / kinds (an integer edge-detection kernel on a float image, float32 filters on float64 data, ...),
+        with and without padding: the documented formula evaluated in the operands' common type"""
+        kinds = [("float64", "int64"), ("float64", "float32"), ("float32", "float64"), ("int64", "float64"), ("float64", "float16"), ("float32", "int32"), ("float64", "float64")]
+        for xdt, wdt in kinds:
+            for (xs, ws, s, p, d) in [((5,), (3,), (1,), (1,), (1,)), ((5,), (3,), (1,), (0,), (1,)), ((4, 4), (2, 2), (2, 2), (1, 1), (1, 1)), ((5, 4), (3, 2), (1, 1), (1, 0), (1, 1)), ((6,), (2,), (2,), (2,), (2,))]:
+                if not conv_valid(xs, ws, s, p, d):
+                    continue
+                x = (rng.normal(size=(2, 2, *xs)) * 3.0).astype(xdt)
+                w = (rng.normal(size=(2, 2, *ws)) * 3.0).astype(wdt)
+                desc = dict(layer="conv_nd", x_dtype=xdt, w_dtype=wdt, x=list(x.shape), w=list(w.shape), stride=list(s), padding=list(p), dilation=list(d))
+                b.count("conv_nd[dtype mix]")
+                try:
+                    out = nn.conv_nd(x, w, stride=tuple(s), padding=tuple(p), dilation=tuple(d))
+                except Exception as e:
+                    b.fail("C16.layers.conv_nd.rejects_valid", desc, f"raises {type(e).__name__}: {str(e)[:120]}")
+                    continue
+                ref = conv_naive(x.astype(np.float64), w.astype(np.float64), s, p, d)
+                tol = 5e-2 if "float16" in (xdt, wdt) else (1e-4 if "float32" in (xdt, wdt) else 1e-9)
+                if out.shape != ref.shape or not close(np.asarray(out.data, dtype=np.float64), ref, rtol=tol, atol=tol * 10):
+                    b.fail("C16.layers.conv_nd.value", desc, f"differs from the naive formula (max abs error {float(np.max(np.abs(np.asarray(out.data, dtype=np.float64) - ref))) if out.shape == ref.shape else 'shape'})")
+                elif out.dtype != np.result_type(x, w):
+                    b.fail("C16.layers.conv_nd.dtype", desc, f"result dtype {out.dtype}, operands' common type {np.result_type(x, w)}")
+                b.case(desc)
+
     def check_pool(shape, pool, s):
         desc = dict(layer="max_pool", x=list(shape), pool=list(pool), stride=list(s))
         x = rng.normal(size=shape)
@@ -175,6 +200,7 @@ def run(tier, seed, only=None):
             grid2 = grid2[::5]
         for (x0, x1, w0, w1, s0, s1, p0, p1, d0, d1) in grid2:
             check_conv([x0, x1], [w0, w1], [s0, s1], [p0, p1], [d0, d1], 1, 2, 2)
+        check_conv_dtypes()
     if not only or "pool" in only:
         for x0, w0, s0 in itertools.product(range(1, 7), range(1, 4), range(1, 4)):
             check_pool((2, x0), [w0], [s0])
